@@ -714,6 +714,26 @@ def r1610(db, ctx):
                 ok = C.canon(el[0]) == want(L) and (plain or packed)
                 why = f'element {X.show(C.canon(el[0]), 60)} over {el[1]} kept under {[X.show(c_, 60) for c_ in flt]}'
         else:
+            # a push loop over a pipeline: `for i in <pipeline> { v.push(x(i)) }` with v returned
+            pushes = [(bi_, t_) for bi_, t_ in f.calls() if (f.callee_short(t_) or '').endswith('Vec::push')]
+            if len(pushes) == 1 and e is not None and e[0] == 'v':
+                bi_, t_ = pushes[0]
+                from lm import iteralg as IA
+                tgt = X.strip_refs(norm(R.at(bi_).operand(t_['args'][0])))
+                v_ = C.canon(norm(R.at(bi_).operand(t_['args'][1])))
+                ps = [x_ for x_ in X.walk(v_) if IA.is_pos(x_)]
+                if tgt == e and len(set(ps)) == 1:
+                    L = ps[0][1]
+                    flt = [C.canon(c_) for c_ in C.filters.get(L, [])]
+                    ext = C.extents.get(L, [])
+                    bits = ('fld', ('p', 1), 'active')
+                    plain = ext == [('len', act)] and flt == [('at', act, ('pos', L))]
+                    packed = ext == [('sub', ('fld', bits, 'len'), ('k', 0))] and len(flt) == 1 and m(('call~', 'BitVec::test', (bits, ('pos', L))), flt[0]) is not None
+                    ok = v_ == want(L) and (plain or packed)
+                    why = f'pushed {X.show(v_, 60)} over {ext} kept under {[X.show(c_, 60) for c_ in flt]}'
+                    (ctx.ok if ok else ctx.fail)('R16.10', f, f'{name}() over every index with its active flag set', *([[why]] if ok else [why]))
+                    n += 1 if ok else 0
+                    continue
             # a hand-written loop: not decided here
             if not any((f.callee_short(t_) or '').rsplit('::', 1)[-1] in ('collect', 'filter', 'filter_map', 'map') for _, t_ in f.calls()):
                 ctx.note(f'R16.10: Sampler::{name} is not written as an iterator pipeline; its loop form is not decided')
